@@ -268,6 +268,79 @@ def _increfed(node, pname: str) -> bool:
     return any(_increfed(c, pname) for c in node.get("inner", []) or [] if isinstance(c, dict))
 
 
+PURE_CALLS = {"Py_TYPE", "Py_IS_TYPE", "Py_SIZE", "PyList_GET_SIZE", "PyTuple_GET_SIZE", "PyUnicode_GET_LENGTH", "PyBytes_GET_SIZE", "PyByteArray_GET_SIZE", "PyDict_GET_SIZE", "PySet_GET_SIZE",
+              "PyType_HasFeature", "PyType_FastSubclass", "PyObject_TypeCheck", "PyType_IsSubtype", "__builtin_expect", "PyFloat_AS_DOUBLE", "PyUnicode_READ_CHAR", "PyUnicode_KIND", "PyUnicode_DATA",
+              "PyUnicode_IS_READY", "PyUnicode_IS_ASCII", "PyUnicode_IS_COMPACT", "PyUnicode_IS_COMPACT_ASCII", "PyBytes_AS_STRING", "PyByteArray_AS_STRING", "_PyUnicode_COMPACT_DATA", "_PyUnicode_NONCOMPACT_DATA",
+              "PyUnicode_1BYTE_DATA", "PyList_GET_ITEM", "PyTuple_GET_ITEM", "_Py_IsImmortal", "Py_Is", "Py_IsNone", "Py_IsTrue", "Py_IsFalse", "PyErr_Occurred",
+              "Py_INCREF", "Py_XINCREF", "Py_DECREF", "Py_XDECREF", "CPy_INCREF", "CPy_DECREF", "CPy_XDECREF", "Py_NewRef", "Py_XNewRef", "PyUnicode_READ", "PyUnicode_MAX_CHAR_VALUE"}
+
+
+def _pure_call_name(nm: str | None) -> bool:
+    if nm is None:
+        return False
+    return nm in PURE_CALLS or nm.startswith("CPyTagged_Check") or nm.startswith("CPyTagged_ShortAs") or nm.startswith("CPyTagged_Is") or nm.endswith("_Check") or nm.endswith("_CheckExact") or nm.startswith("CPy_TYPE") or nm.startswith("__builtin_")
+
+
+def _has_effect_call(node) -> bool:
+    """Is any function called in this subtree that is not on the list of pure accessors?"""
+    if node.get("kind") == "CallExpr" and node.get("inner"):
+        cal = _strip(node["inner"][0]).get("referencedDecl", {}).get("name")
+        if not _pure_call_name(cal):
+            return True
+    return any(_has_effect_call(c) for c in node.get("inner", []) or [] if isinstance(c, dict))
+
+
+def _silent_error_returns(body, is_error) -> list[int]:
+    """Lines of `return <error value>` statements that can be reached from the function entry without any
+    call that could have set an exception (structured walk; goto/switch make the function undecided: [])."""
+    out: list[int] = []
+    bad = [False]
+
+    def walk(st, called: frozenset) -> frozenset | None:
+        k = st.get("kind")
+        kids = [c for c in st.get("inner", []) or [] if isinstance(c, dict)]
+        if k == "CompoundStmt":
+            for c in kids:
+                called = walk(c, called)
+                if called is None:
+                    return None
+            return called
+        if k == "ReturnStmt":
+            if kids and is_error(kids[0]) and False in called and not _has_effect_call(kids[0]):
+                out.append(st.get("range", {}).get("begin", {}).get("line") or -1)
+            return None
+        if k == "IfStmt":
+            if kids and _has_effect_call(kids[0]):
+                called = frozenset([True])
+            res = []
+            for b in kids[1:3]:
+                r = walk(b, called)
+                if r is not None:
+                    res.append(r)
+            if len(kids) < 3:
+                res.append(called)
+            if not res:
+                return None
+            acc = frozenset()
+            for r in res:
+                acc |= r
+            return acc
+        if k in ("ForStmt", "WhileStmt", "DoStmt"):
+            for c in kids[:-1]:
+                if _has_effect_call(c):
+                    called = frozenset([True])
+            r = walk(kids[-1], called) if kids else called
+            return called | (r or frozenset())
+        if k in ("GotoStmt", "LabelStmt", "SwitchStmt", "IndirectGotoStmt"):
+            bad[0] = True
+            return called
+        if k in ("BreakStmt", "ContinueStmt", "NullStmt"):
+            return called
+        return frozenset([True]) if _has_effect_call(st) else called
+    walk(body, frozenset([False]))
+    return [] if bad[0] else sorted(set(out))
+
+
 def _reduce(doc: dict) -> dict:
     res = {}
     for n in doc.get("inner", []):
@@ -293,6 +366,12 @@ def _reduce(doc: dict) -> dict:
                     rets, structured = _consumption_at_returns(body[0], pn)
                     cons[pn] = {"returns": rets, "structured": structured, "given_away": _given_away(body[0], pn), "increfed": _increfed(body[0], pn)}
             ent["param_names"] = pnames
+            if "*" in ret:
+                ent["silent_error_returns"] = _silent_error_returns(body[0], _is_null)
+            elif ret in ("char", "_Bool", "bool"):
+                ent["silent_error_returns"] = _silent_error_returns(body[0], lambda e: _classify(e, ret) in ("int:0", "int:2") or (_strip(e).get("kind") == "CXXBoolLiteralExpr" and not _strip(e).get("value")))
+            elif ret in ("int", "int32_t", "Py_ssize_t", "long"):
+                ent["silent_error_returns"] = _silent_error_returns(body[0], lambda e: _classify(e, ret) == "int:-1")
             ent["consumption"] = cons
             if "*" in ret:
                 inc: set[str] = set()
